@@ -338,9 +338,78 @@ pub struct Violation {
 }
 
 /// Runs a property. Returns process exit code.
+/// A violation some worker has already established while others are still running. When the process has to
+/// be ended from outside the normal flow (global watchdog, memory monitor: another worker is stuck in, or is
+/// being blown up by, the code under test) it is reported instead of being lost.
+struct Pending {
+    id: String,
+    origin: String,
+    case_json: Value,
+    signature: String,
+    message: String,
+    seed: u64,
+    tier: String,
+    verif_dir: PathBuf,
+}
+
+static PENDING: Mutex<Option<Pending>> = Mutex::new(None);
+
+fn set_pending(id: &str, opts: &Options, origin: &str, case_json: Value, f: &Failure) {
+    let mut p = PENDING.lock().unwrap_or_else(|e| e.into_inner());
+    *p = Some(Pending {
+        id: id.to_string(),
+        origin: origin.to_string(),
+        case_json,
+        signature: f.signature.clone(),
+        message: f.message.clone(),
+        seed: opts.seed,
+        tier: opts.tier.name().to_string(),
+        verif_dir: opts.verif_dir.clone(),
+    });
+}
+
+/// Prints and stores the pending violation, if any; true when one was reported.
+pub fn emergency_report() -> bool {
+    let p = PENDING.lock().unwrap_or_else(|e| e.into_inner());
+    match &*p {
+        None => false,
+        Some(v) => {
+            let dir = v.verif_dir.join("replays").join("found");
+            let _ = std::fs::create_dir_all(&dir);
+            let path = dir.join(format!("{}-{:016x}.json", v.id, stable_hash(&v.case_json.to_string())));
+            let doc = json!({"property": v.id, "signature": v.signature, "message": v.message, "origin": format!("{} (reported from the emergency path)", v.origin),
+                             "seed": v.seed, "tier": v.tier, "case": v.case_json});
+            let _ = std::fs::write(&path, serde_json::to_string_pretty(&doc).unwrap());
+            println!("failure: [{}] {}", v.signature, v.message);
+            println!("VIOLATION property={} replay={}", v.id, path.display());
+            true
+        }
+    }
+}
+
+/// Ends the process when its resident memory exceeds the limit (VERIF_RSS_LIMIT_GB, default 28): exit 1 with
+/// the pending violation if one exists, exit 2 (inconclusive) otherwise. Without it the kernel would kill
+/// the check (exit 137) and whatever had been found would be lost.
+fn start_memory_monitor(id: &'static str) {
+    let limit_gb: u64 = std::env::var("VERIF_RSS_LIMIT_GB").ok().and_then(|s| s.parse().ok()).unwrap_or(28);
+    std::thread::spawn(move || loop {
+        std::thread::sleep(std::time::Duration::from_millis(200));
+        let rss_pages: u64 = std::fs::read_to_string("/proc/self/statm").ok().and_then(|s| s.split_whitespace().nth(1).and_then(|x| x.parse().ok())).unwrap_or(0);
+        if rss_pages * 4096 > limit_gb << 30 {
+            let reported = emergency_report();
+            if !reported {
+                println!("INCONCLUSIVE property={} resident memory above {} GB (a case that does not fit, or runaway allocation in the code under test)", id, limit_gb);
+            }
+            crate::util::kill_descendants();
+            std::process::exit(if reported { 1 } else { 2 });
+        }
+    });
+}
+
 pub fn drive<P: Prop>(prop: &P, opts: &Options) -> i32 {
     let start = Instant::now();
     let id = prop.id();
+    start_memory_monitor(id);
     let known: Vec<KnownFinding> =
         load_known_findings(&opts.verif_dir).into_iter().filter(|k| k.property == id).collect();
 
@@ -439,6 +508,7 @@ pub fn drive<P: Prop>(prop: &P, opts: &Options) -> i32 {
                         rec.cases += 1;
                         if let CaseOutcome::Fail(f) = run_case(prop, &case, &mut rec, known) {
                             stop.store(true, Ordering::Relaxed);
+                            set_pending(id, opts, "enumeration", serde_json::to_value(&case).unwrap(), &f);
                             viol = Some(Violation {
                                 case_json: serde_json::to_value(&case).unwrap(),
                                 failure: f,
@@ -513,6 +583,7 @@ pub fn drive<P: Prop>(prop: &P, opts: &Options) -> i32 {
                                 match &*fs {
                                     None => {
                                         *fs = Some(f.signature.clone());
+                                        set_pending(id, opts, &format!("generated worker={} (before shrinking)", w), serde_json::to_value(&case).unwrap(), &f);
                                         shrink_started.set(Some(std::time::Instant::now()));
                                         rec.counting = false;
                                         stop.store(true, Ordering::Relaxed);
@@ -561,6 +632,9 @@ pub fn drive<P: Prop>(prop: &P, opts: &Options) -> i32 {
                             None
                         }
                     };
+                    if let Some(v) = &viol {
+                        set_pending(id, opts, &v.origin, v.case_json.clone(), &v.failure);
+                    }
                     results.lock().unwrap().push((rec, viol));
                 });
             }
